@@ -13,6 +13,15 @@ from .simdev import SimDevice, MODE_SIGNER, MODE_UIHB, MODE_BOOT
 from .transport import World, install
 
 
+def preload():
+    """Import in the parent everything a manager process needs, so that forked children start warm."""
+    env.setup()
+    import socketserver  # noqa
+    import comm.server, comm.platform, mgr.runner, ledger.hsm2dongle, ledger.hsm2dongle_tcp  # noqa
+    import sgx.hsm2dongle, manager_ledger, manager_sgx, ledger.protocol, ledger.protocol_v1, ledger.pin  # noqa
+    import logging.config  # noqa
+
+
 def _child(plan, wfd):
     def emit(ev):
         os.write(wfd, (json.dumps(ev) + "\n").encode())
@@ -199,6 +208,8 @@ def client_request(port, line, timeout=30):
             if not b:
                 break
             data += b
+    except socket.timeout:
+        ev["timed_out"] = not data
     except OSError:
         pass
     finally:
@@ -273,9 +284,11 @@ GOOD_ENV = {"onb": "yes", "mode1": "signer", "uiver": [5, 4, 1], "echo": "t", "r
 
 
 def run_lifetime(scratch, tag, should, causes, v1, rng, start_env=None, plat="ledger", client_lines=None,
-                 variant=None, explicit=None, cfg=None):
+                 variant=None, explicit=None, cfg=None, client_timeout=30):
     """Fork one manager process. Returns (events, info)."""
-    env.setup()
+    preload()
+    import time as _time
+    _t0 = _time.time()
     e = dict(GOOD_ENV)
     needchg = "f"
     pin_file = None
@@ -369,12 +382,17 @@ def run_lifetime(scratch, tag, should, causes, v1, rng, start_env=None, plat="le
         port = ev["port"]
         events.append({"k": "listening"})
     stopped = False
+    hung = None
     for i, line in enumerate(lines_):
         if exited:
             break
-        if stopped:
+        if stopped or hung is not None:
             break
-        obs = client_request(port, line)
+        obs = client_request(port, line, timeout=client_timeout)
+        if obs.pop("timed_out", False):
+            # no answer in time: the single-threaded manager is still busy with this request and serves nobody
+            # else meanwhile; the lifetime ends here (recorded as a request without a reply)
+            hung = i
         obs.update(k="conn", cause={"unsafe": "linkfault", "unsafe!": "unsafe", "reconnfail": "linkfault"}.get(causes[i], causes[i]),
                    stopreq=False)
         events.append(obs)
@@ -431,5 +449,5 @@ def run_lifetime(scratch, tag, should, causes, v1, rng, start_env=None, plat="le
             full[conn_idx[i]]["cause"] = "unsafe"
         if c == "unsafe":
             pending_unsafe = True
-    return full, {"env": e, "needchg": needchg, "causes": causes, "labels": labels, "v1": v1, "plat": plat, "cfg": plan["cfg"],
+    return full, {"env": e, "needchg": needchg, "causes": causes, "labels": labels, "v1": v1, "plat": plat, "cfg": plan["cfg"], "hung_at": hung, "wall_s": round(_time.time() - _t0, 2), "tag": tag,
                   "child": [c for c in child_events if c["k"] != "start"][:8]}
